@@ -255,7 +255,7 @@ pub fn run(ctx: &Ctx) -> Collector {
         let (v, e, cap, bit) = cases[i];
         let mut input = vec![0u8; cap];
         input[bit / 8] = 1 << (7 - bit % 8);
-        let o = subject::Opts { mode: Some(2), ecl: Some(e as u8), version: Some(v as u8), mask: Some(0) };
+        let o = subject::Opts { mode: Some(2), ecl: Some(e as u8), version: Some(v as u8), mask: Some(0), order: 0 };
         match subject::build(&input, &o) {
             subject::Outcome::Ok(q) => {
                 col.eval(Some(crate::core::obs_digest(&q)));
